@@ -309,7 +309,22 @@ class Check:
         return a
 
     # -- finishing
+    # properties whose statement is a relation the written solution must satisfy: a solver that exits 0 but writes non-finite
+    # potentials for a generated, well-formed problem contradicts it, and tolerance comparisons are blind to NaN
+    NONFINITE_IS_VIOLATION = {"C03", "C04", "C05", "C06", "C07", "C11", "C17", "C19"}
+
     def finish(self):
+        rmod = sys.modules.get("runner")
+        if rmod is not None and getattr(rmod, "NONFINITE", None):
+            pending = [r for r in rmod.NONFINITE if not getattr(r, "nonfinite_handled", False)]
+            self.cov["nonfinite_solutions_seen"] = len(rmod.NONFINITE)
+            already = any("non-finite" in v["key"] or "nan" in v["key"] for v in self.violations)
+            if self.id in self.NONFINITE_IS_VIOLATION and pending and not already:
+                r = pending[0]
+                self.violation("nonfinite-solution:%s:%s" % (r.prob.kind, getattr(r.prob, "ptype", "?")),
+                               "the solver exited 0 but wrote non-finite values to %s (%d such run(s)): ... %s ..."
+                               % (os.path.basename(r.solution_path()), len(pending), r.nonfinite), dict(files=getattr(r, "nonfinite_files", {})))
+            del rmod.NONFINITE[:]
         known = load_known()
         rdir = os.path.join(ROOT, "replays", self.id)
         out_lines = []
